@@ -12,7 +12,7 @@ use syn::{
 use crate::{
     bound::{Bound, Bounds, WhereClauseBuilder},
     common::BinaryOp,
-    syn_utils::{atomic_type, expand_self, parenthesize_fragments, self_type},
+    syn_utils::{atomic_type, expand_self, parenthesize_fragments, self_type, ParenthesizeFragments},
 };
 
 use self::compare_op::{
@@ -55,7 +55,9 @@ enum DeriveItemArgsOption {
 }
 
 pub fn build_derive(input: TokenStream) -> Result<TokenStream> {
-    build_from_derive_input(parse2(input)?)
+    let mut input: DeriveInput = parse2(input)?;
+    syn::visit_mut::VisitMut::visit_derive_input_mut(&mut ParenthesizeFragments, &mut input);
+    build_from_derive_input(input)
 }
 fn build_from_derive_input(item: DeriveInput) -> Result<TokenStream> {
     let mut kinds = HelperAttributeKinds::new(true);
